@@ -94,9 +94,9 @@ def stage(ctx, binp, mc_defs, cfg_name, ends, scenario):
     thorough = ctx.tier == "thorough"
     hold, long_hold, sim_hold = (300, 1200, 150)
 
-    def defs(*c, abandon=False, invs=OV_INVS, **kw):
+    def defs(*c, abandon=False, invs=OV_INVS, focus=False, **kw):
         d = mc_defs(*c, **kw)
-        d.update(ABANDON="TRUE" if abandon else "FALSE", OVINVS=invs)
+        d.update(ABANDON="TRUE" if abandon else "FALSE", OVINVS=invs, OVSIMSPEC="OvSimSpecFocus" if focus else "OvSimSpec")
         return d
     # ------------------------------------------------------------ exhaustive: the phase model
     fam = [((2, 1, 1, 1, False, 1, 1), dict(expiring=("f1",), outcomes=("ok", "error")))]
@@ -121,11 +121,13 @@ def stage(ctx, binp, mc_defs, cfg_name, ends, scenario):
     # ------------------------------------------------------------ spec -> code: behaviours with an overdue phase
     scenarios = []
     sims = [((2, 2, 2, 1, False, 1, 1), dict(expiring=("f1",))),
-            ((2, 2, 2, 2, False, 1, 1), dict(expiring=("f1",), et=False)),
+            # no ExportTimeout: flush contexts expire only during the flush's own export (OvSimSpecFocus)
+            ((1, 3, 2, 2, False, 2, 1), dict(expiring=("f1", "f2"), et=False, focus=True)),
             ((2, 2, 1, 1, True, 1, 1), {})]
     per_cfg = 40 if thorough else 8
     for c, kw in sims:
-        r = ctx.tlc(S, "MC_BSPOverrunSim", "MC_BSPOverrunSim.cfg", defines=defs(*c, **kw), workers=1,
+        focus = kw.pop("focus", False)
+        r = ctx.tlc(S, "MC_BSPOverrunSim", "MC_BSPOverrunSim.cfg", defines=defs(*c, focus=focus, **kw), workers=1,
                     simulate="num=%d" % (1200 if thorough else 300), depth=400, name="sim-overrun-" + cfg_name(*c, **kw),
                     timeout=900, heap="2g")
         cand = {}
